@@ -17,6 +17,9 @@ CONN = "uxarray/grid/connectivity.py"
 
 def check(run):
     P = run.program
+    from ..rules import dtype as _dt
+    _dt.check_float_results(run, P, ["uxarray/core/aggregation.py:_apply_node_to_face_aggregation_numpy", "uxarray/core/aggregation.py:_apply_node_to_edge_aggregation_numpy",
+                                    "uxarray/core/aggregation.py:_node_to_face_aggregation", "uxarray/core/aggregation.py:_node_to_edge_aggregation"])
     run.explanation = (
         "Structural decision of the node->face/edge aggregation: NUMPY_AGGREGATIONS maps each of the ten names to the numpy "
         "function of the same name and each topological_<name> passes its own name; in the numpy implementation the loop "
